@@ -166,7 +166,9 @@ def body_posterior(case, ctx):
     f = 1e-9 + 100 * kappa * EPS
     dK = np.sqrt(np.maximum(np.diag(ref["K"]), 1e-300))
     # mean-only path: one solve, error ~ kappa*eps at the natural scale of the terms summed
-    tol_only = f * ref["scale_mu"]
+    # (the rounding error of a linear solve is norm-wise: a component much smaller than the largest one inherits the kappa*eps error of
+    # the largest)
+    tol_only = f * ref["scale_mu"] + 100 * kappa * EPS * float(np.max(ref["scale_mu"]))
     e = np.max(np.abs(mu_only - ref["mu"]) / tol_only)
     ctx.ratio("mean-only", e, 1.0)
     if not np.all(np.isfinite(mu_only)) or e > 1:
@@ -175,7 +177,7 @@ def body_posterior(case, ctx):
     # full path: the documented result is (posterior covariance) @ A^T S^-1 (y - A m) + m, so the covariance's
     # rounding error (kappa*eps at the scale of the prior covariance) is multiplied by that data vector
     u = np.abs(A.T @ ((y - A @ ref["mean"]) / y_err**2))
-    tol_full = f * (ref["scale_mu"] + dK * float(dK @ u))
+    tol_full = f * (ref["scale_mu"] + dK * float(dK @ u)) + 100 * kappa * EPS * float(np.max(ref["scale_mu"]))
     e = np.max(np.abs(mu - ref["mu"]) / tol_full)
     ctx.ratio("mean", e, 1.0)
     if not np.all(np.isfinite(mu)) or e > 1:
